@@ -252,7 +252,20 @@ func templateReplay(e *Engine, o *Obl, repo, dir string) (bool, string, bool) {
 	}
 	f := filepath.Join(dir, sanitize(o.Name)+".getvalue.smt2")
 	os.WriteFile(f, []byte(script), 0o644)
-	res, out, _ := runSolver(solvers[0], f, 10)
+	res, out := "", ""
+	// ask the solver that found the counterexample first, then the others
+	order := append([]solverSpec(nil), solvers...)
+	for i, sp := range order {
+		if strings.HasPrefix(o.Solver, sp.name) && (sp.name != "z3" || !strings.HasPrefix(o.Solver, "z3-new")) {
+			order[0], order[i] = order[i], order[0]
+		}
+	}
+	for _, sp := range order {
+		res, out, _ = runSolver(sp, f, 10)
+		if res == "sat" {
+			break
+		}
+	}
 	if res != "sat" {
 		tr.WriteString("replay: could not obtain counterexample values (" + res + ")\n")
 		return false, tr.String(), true
